@@ -409,6 +409,37 @@ func init() {
 				fmt.Fprintf(w, "def dvErrorStyles : List String := %s\n", c18StrList(styles))
 			}
 		}
+		w.WriteString("\n/-! XML struct tags: (Go field, XML name, attribute?, omitempty?, pointer?, Go type) in declaration order -/\n")
+		for _, sn := range []string{"xlsxSheetProtection", "xlsxWorkbookProtection", "xlsxDataValidation"} {
+			st := c18StructDecl(sn)
+			if st == nil {
+				fail("type %s struct", sn)
+				continue
+			}
+			var items []string
+			for _, f := range st.Fields.List {
+				if f.Tag == nil || len(f.Names) != 1 || f.Names[0].Name == "XMLName" {
+					continue
+				}
+				tag := c18ReflectTag(unq(f.Tag.Value), "xml")
+				parts := strings.Split(tag, ",")
+				attr, omit := false, false
+				for _, p := range parts[1:] {
+					if p == "attr" {
+						attr = true
+					}
+					if p == "omitempty" {
+						omit = true
+					}
+				}
+				t, ptr := f.Type, false
+				if se, ok := t.(*ast.StarExpr); ok {
+					t, ptr = se.X, true
+				}
+				items = append(items, fmt.Sprintf("(%s, %s, %v, %v, %v, %s)", leanStr(f.Names[0].Name), leanStr(parts[0]), attr, omit, ptr, leanStr(src(t))))
+			}
+			fmt.Fprintf(w, "def tags_%s : List (String × String × Bool × Bool × Bool × String) := [%s]\n", sn, strings.Join(items, ", "))
+		}
 		w.WriteString("\n/-! conditional formats: type and criteria tables (styles.go) -/\n")
 		for _, n := range []string{"validType", "criteriaType", "operatorType"} {
 			c18StrMap(w, n, true)
@@ -595,4 +626,43 @@ func c18EnumMap(w *bytes.Buffer, typ, mapName, leanName string) {
 		vals = append(vals, m[n]) // a constant without map entry yields "" as in Go
 	}
 	fmt.Fprintf(w, "def %s : List String := %s\n", leanName, c18StrList(vals))
+}
+
+// c18ReflectTag returns the value of key in a struct tag string (as reflect.StructTag.Get).
+func c18ReflectTag(tag, key string) string {
+	for tag != "" {
+		i := 0
+		for i < len(tag) && tag[i] == ' ' {
+			i++
+		}
+		tag = tag[i:]
+		if tag == "" {
+			break
+		}
+		i = 0
+		for i < len(tag) && tag[i] > ' ' && tag[i] != ':' && tag[i] != '"' {
+			i++
+		}
+		if i == 0 || i+1 >= len(tag) || tag[i] != ':' || tag[i+1] != '"' {
+			break
+		}
+		name := tag[:i]
+		tag = tag[i+1:]
+		i = 1
+		for i < len(tag) && tag[i] != '"' {
+			if tag[i] == '\\' {
+				i++
+			}
+			i++
+		}
+		if i >= len(tag) {
+			break
+		}
+		q := tag[:i+1]
+		tag = tag[i+1:]
+		if name == key {
+			return unq(q)
+		}
+	}
+	return ""
 }
